@@ -48,7 +48,7 @@ def gen(rng):
     if op in ('trace', 'diagonal') and len(shape) != 2: c['op'] = 'sum'; c['axis'] = None
     if c['op'] in ('trace', 'diagonal') and rng.random() < 0.5:
         off = rng.choice([-1, 1, -2, 2])         # an off-diagonal (kept only when it is not empty)
-        if len(np_diag_idx(shape, off)) > 0: c['offset'] = off
+        if len(np_diag_idx(shape, off)) > 0 or (c['op'] == 'trace' and rng.random() < 0.5): c['offset'] = off      # (an EMPTY diagonal has trace 0, as in NumPy)
     # the property's domain: result word <= 53 bits
     if op == 'cumprod' and n * max(nw, abs(nf) + nw) > 53: return gen(rng)
     if op == 'prod' and (n if (axis is None or isinstance(axis, tuple)) else shape[axis]) * nw > 53: return gen(rng)
